@@ -9,6 +9,7 @@ import run
 from extract import Undecided
 
 VERIF = gen.VERIF
+OUT = os.environ.get('VERIF_SCRATCH') or VERIF   # evidence/ and replays/ of scratch runs (seed trials) do not overwrite the real ones
 
 
 def safe(s):
@@ -16,8 +17,8 @@ def safe(s):
 
 
 def write_replay(pid, r, oid, diags, witness, confirmed):
-    os.makedirs(os.path.join(VERIF, 'replays'), exist_ok=True)
-    path = os.path.join(VERIF, 'replays', '%s-%s-%s.json' % (pid, r.name, safe(oid)))
+    os.makedirs(os.path.join(OUT, 'replays'), exist_ok=True)
+    path = os.path.join(OUT, 'replays', '%s-%s-%s.json' % (pid, r.name, safe(oid)))
     ob = r.obligations.get(oid, {})
     fn = ob.get('fn')
     finfo = next((f for f in r.gen.functions if f['name'] == fn), {})
@@ -33,7 +34,7 @@ def write_replay(pid, r, oid, diags, witness, confirmed):
         'rewrite_rules_applied': finfo.get('rules'),
         'verifier': 'verus (z3)',
         'verifier_cmd': r.cmd,
-        'generated_file': os.path.join(VERIF, 'build', r.name + '.rs'),
+        'generated_file': os.path.join(OUT, 'build', r.name + '.rs'),
         'status': 'obligation was discharged on the pinned tree (units/%s.expect) and is refuted now%s' % (r.name, ' (confirmed by a second run with a larger resource limit and another seed)' if confirmed else ''),
         'verifier_output': [d['rendered'] for d in diags],
         'witness': witness,
@@ -173,8 +174,8 @@ def decide(pid, prop, tier, seed, results, undecided, t0, load_expect, findings)
         lines.append('KNOWN-FINDING: property=%s %s' % (pid, f['what']))
     if oracle_fail and not confirmed:
         # the deductive route is undecided (or thorough tier) but executing the real code on the bounded universe shows a concrete failing input
-        os.makedirs(os.path.join(VERIF, 'replays'), exist_ok=True)
-        path = os.path.join(VERIF, 'replays', '%s-bounded-%s.json' % (pid, safe(oracle_fail['check'])))
+        os.makedirs(os.path.join(OUT, 'replays'), exist_ok=True)
+        path = os.path.join(OUT, 'replays', '%s-bounded-%s.json' % (pid, safe(oracle_fail['check'])))
         json.dump({'property': pid, 'unit': None, 'obligation': 'bounded:' + oracle_fail['check'], 'obligation_kind': 'bounded stand-in (exhaustive execution of the real crate on a small universe; not a proof)',
                    'clause_text': oracle_fail.get('bound'), 'verifier': 'verus undecided; bounded oracle decided',
                    'status': 'the deductive check is undecided on this tree (%s); the bounded stand-in finds a concrete failing input' % ('; '.join(m[:200] for _, m in undec[:2]) or 'thorough tier'),
@@ -214,8 +215,8 @@ def decide(pid, prop, tier, seed, results, undecided, t0, load_expect, findings)
         'wall_s': round(wall, 2),
         'violations': len(confirmed),
     }
-    os.makedirs(os.path.join(VERIF, 'evidence'), exist_ok=True)
-    json.dump(ev, open(os.path.join(VERIF, 'evidence', pid + '.json'), 'w'), indent=1)
+    os.makedirs(os.path.join(OUT, 'evidence'), exist_ok=True)
+    json.dump(ev, open(os.path.join(OUT, 'evidence', pid + '.json'), 'w'), indent=1)
     for l in lines:
         print(l)
     print('property %s: %d obligations, %d discharged, %d violations, %d known findings, %d undecided; units %s; %.1fs'
